@@ -47,6 +47,39 @@ func c18Datagram(enc []byte, tail int) []byte {
 
 func c18Buffer(enc []byte) []byte { return c18Datagram(enc, 0) }
 
+// c18NextDatagram models what happens to the buffer a frame was decoded from
+// once the decoder has returned: Muxer.readMsg reads EVERY datagram into the one
+// m.readBuf and hands fromBytes the window m.readBuf[:n], so by the time a
+// decoded frame is consumed (parked in the receive window behind a gap, queued
+// for an unreliable reader) the next datagram has been written over those bytes.
+// kind 0: every byte complemented; 1: zeroed; 2: another frame's bytes (keyed fill).
+func c18NextDatagram(buf []byte, kind int, seed uint64) {
+	full := buf[:cap(buf)]
+	switch uint(kind) % 3 {
+	case 0:
+		for i := range full {
+			full[i] = ^full[i]
+		}
+	case 1:
+		for i := range full {
+			full[i] = 0
+		}
+	default:
+		copy(full, vlib.Fill(seed^0x9e3779b9, len(full)))
+	}
+}
+
+// c18FrameSnap is a deep copy of a decoded frame.
+func c18FrameSnap(f *frame) *frame {
+	g := *f
+	g.data = append([]byte(nil), f.data...)
+	return &g
+}
+
+func c18FrameSame(a, b *frame) bool {
+	return a.tubeID == b.tubeID && a.flags == b.flags && a.ackNo == b.ackNo && a.frameNo == b.frameNo && a.dataLength == b.dataLength && bytes.Equal(a.data, b.data)
+}
+
 func c18FrameRunA(c c18Frame, v *vlib.Verdict) {
 	data := vlib.Fill(c.Seed, c.Len)
 	flags := c18Flags(c.Flags)
@@ -111,14 +144,16 @@ func c18FrameRunA(c c18Frame, v *vlib.Verdict) {
 			v.Label("initiate-frame-via-muxer-path")
 			var g2 *initiateFrame
 			var ferr error
+			dgram := c18Datagram(enc, 0)
 			if vlib.Guard(v, func() {
 				var fr *frame
-				if fr, ferr = fromBytes(c18Datagram(enc, 0)); ferr == nil {
+				if fr, ferr = fromBytes(dgram); ferr == nil {
 					g2 = fromInitiateBytes(fr.toBytes())
 				}
 			}) {
 				return
 			}
+			c18NextDatagram(dgram, int(c.Seed>>8), c.Seed) // the read buffer is reused before the initiate frame is acted on
 			if ferr != nil {
 				v.Failf("C18:decode-rejects-own-encoding:tubes.initiateFrame", "fromBytes rejects the 10-byte encoding of an initiate frame (flags %+v): %v", flags, ferr)
 				return
@@ -140,7 +175,8 @@ func c18FrameRunA(c c18Frame, v *vlib.Verdict) {
 	var g *frame
 	var err error
 	tail := int(c.Seed % 2 * 64) // every other case: the datagram continues past the frame
-	if vlib.Guard(v, func() { g, err = fromBytes(c18Datagram(enc, tail)) }) {
+	dgram := c18Datagram(enc, tail)
+	if vlib.Guard(v, func() { g, err = fromBytes(dgram) }) {
 		return
 	}
 	if err != nil {
@@ -164,6 +200,22 @@ func c18FrameRunA(c c18Frame, v *vlib.Verdict) {
 	}
 	if field != "" {
 		v.Failf("C18:roundtrip-mismatch:tubes.frame:"+field, "sent %+v, decoded id=%d flags=%+v ack=%d no=%d dataLength=%d (%d data bytes)", c, g.tubeID, g.flags, g.ackNo, g.frameNo, g.dataLength, len(g.data))
+		return
+	}
+	// A decoder's result must not depend on the caller's buffer after the call: the muxer reads the next datagram
+	// into the same buffer while this frame is still waiting to be consumed. Likewise the encoder's result is the
+	// sender's (it is encrypted / queued): changing it must not reach the frame it was made from.
+	c18NextDatagram(dgram, int(c.Seed>>8), c.Seed)
+	if !bytes.Equal(g.data, f.data) || g.tubeID != f.tubeID || g.flags != f.flags || g.ackNo != f.ackNo || g.frameNo != f.frameNo || g.dataLength != f.dataLength {
+		v.Failf("C18:decoded-value-aliases-input-buffer:tubes.frame", "the frame decoded from a %d-byte datagram (%d data bytes) changed when the datagram buffer was overwritten afterwards (as Muxer.readMsg does with its reused read buffer)", len(dgram), len(f.data))
+		return
+	}
+	if len(data) > 0 {
+		v.Label("buffer-reused-after-decode")
+	}
+	c18NextDatagram(enc, int(c.Seed>>8), c.Seed)
+	if !bytes.Equal(f.data, vlib.Fill(c.Seed, c.Len)) {
+		v.Failf("C18:encoded-bytes-alias-value:tubes.frame", "overwriting the bytes toBytes returned changed the data of the frame that was encoded")
 	}
 }
 
@@ -248,11 +300,19 @@ func c18FrameRunB(c c18FrameB, v *vlib.Verdict) {
 func c18FrameBytesB(in []byte, v *vlib.Verdict) {
 	var f *frame
 	var err error
-	if vlib.Guard(v, func() { f, err = fromBytes(c18Buffer(in)) }) {
+	buf := c18Buffer(in)
+	if vlib.Guard(v, func() { f, err = fromBytes(buf) }) {
 		return
 	}
 	if err != nil {
 		v.Label("decoder-rejected")
+		return
+	}
+	// the caller's buffer is reused for the next datagram (Muxer.readMsg): the decoded frame must not follow it
+	snap := c18FrameSnap(f)
+	c18NextDatagram(buf, int(wire.Hash64(in[:12])), uint64(len(in)))
+	if !c18FrameSame(snap, f) {
+		v.Failf("C18:decoded-value-aliases-input-buffer:tubes.frame", "header % x: decoded %s; after the datagram buffer was overwritten the same frame object reads %s", in[:12], c18FrameStr(snap), c18FrameStr(f))
 		return
 	}
 	var re []byte
